@@ -303,6 +303,8 @@ class Exec:
     """One instance per verified function variant; enumerates paths."""
 
     FEAS_TIMEOUT_MS = 2000
+    PROVE_TIMEOUT_MS = 60000
+    PROVE_RLIMIT = 0
 
     def __init__(self, repo, world):
         self.repo = repo
@@ -324,11 +326,15 @@ class Exec:
         self.fresh_id = 0
         self.notes = []               # bounded cuts etc.
         self.solver = z3.Solver()
+        self._ctxref = self.solver.ctx.ref()
         self.solver.set("timeout", self.FEAS_TIMEOUT_MS)
         self.unfolded = set()
         self.ghost = {}
         self.inlined = set()
         self.used_contracts = set()
+        self.results = []
+        self.lemma_done = set()
+        self._journal_seen = 0
         S.reset_tracking()
 
     def fresh(self, prefix, sort):
@@ -340,22 +346,63 @@ class Exec:
             return
         if e is False:
             raise PathAbort()
-        e = z3.simplify(e) if not z3.is_quantifier(e) else e
         if z3.is_true(e):
             return
         self.hyps.append(e)
-        self.solver.add(e)
+        z3.Z3_solver_assert(self._ctxref, self.solver.solver, e.as_ast())
         if is_pc:
             self.pc.append(e)
 
+    def flush_lemmas(self):
+        """Add the lemma instances for tracked terms created since the last call."""
+        if len(S.JOURNAL) == self._journal_seen:
+            return
+        from . import spec
+        new = spec.arith_lemmas(self.lemma_done) + spec.array_axioms(self.lemma_done)
+        self._journal_seen = len(S.JOURNAL)
+        for l in new:
+            self.hyps.append(l)
+            z3.Z3_solver_assert(self._ctxref, self.solver.solver, l.as_ast())
+
     def oblige(self, name, goal):
+        """Proof obligation under everything assumed so far; discharged at once
+        on the path's incremental solver."""
         if goal is True:
             goal = z3.BoolVal(True)
         elif goal is False:
             goal = z3.BoolVal(False)
-        self.obls.append((name, goal, len(self.hyps)))
+        self.results.append(self.prove(name, goal))
+
+    def prove(self, name, goal):
+        import time
+        t0 = time.time()
+        self.flush_lemmas()
+        s = self.solver
+        s.push()
+        s.add(z3.Not(goal))
+        s.set("timeout", self.PROVE_TIMEOUT_MS)
+        s.set("rlimit", self.PROVE_RLIMIT)
+        r = s.check()
+        out = {"name": name, "status": None, "backend": "z3", "time": 0.0, "model": None, "smt2": None,
+               "pc": None}
+        if r == z3.unsat:
+            out["status"] = "proved"
+        else:
+            out["status"] = "refuted" if r == z3.sat else "undecided"
+            out["smt2"] = s.to_smt2()
+            out["pc"] = [str(c) for c in self.pc][:80]
+            if r == z3.sat:
+                out["z3model"] = s.model()
+            else:
+                out["reason"] = s.reason_unknown()
+        s.pop()
+        s.set("timeout", self.FEAS_TIMEOUT_MS)
+        s.set("rlimit", 0)
+        out["time"] = round(time.time() - t0, 4)
+        return out
 
     def feasible(self, extra=None):
+        self.flush_lemmas()
         self.solver.push()
         if extra is not None:
             self.solver.add(extra)
@@ -452,11 +499,18 @@ class Exec:
 
     # ---- arithmetic --------------------------------------------------------
     def binop(self, opname, a, b):
+        if isinstance(a, PayloadView) or isinstance(b, PayloadView):
+            from . import builtins_impl
+            if isinstance(a, PayloadView):
+                a = builtins_impl.resolve_payload(self.world, self, a)
+            if isinstance(b, PayloadView):
+                b = builtins_impl.resolve_payload(self.world, self, b)
         if isinstance(a, Opaque) or isinstance(b, Opaque):
             if opname in ("+", "%"):
                 return Opaque("str-op")
-        if concrete(a) and concrete(b) and not isinstance(a, (SetVal, DictVal, ArgsView, QVars, ZSetTuple, Obj)) \
-                and not isinstance(b, (SetVal, DictVal, ArgsView, QVars, ZSetTuple, Obj)):
+            raise Unsupported("arithmetic on an uninterpreted value (%s)" % (a.what if isinstance(a, Opaque) else b.what))
+        plain = (int, bool, str, Fraction, list, tuple, set, frozenset)
+        if isinstance(a, plain) and isinstance(b, plain):
             try:
                 return self._concrete_binop(opname, a, b)
             except ZeroDivisionError:
@@ -518,8 +572,7 @@ class Exec:
             fr = Frame(fv, locs, fv.modname, fv.closure, selfcls)
             if isinstance(node, ast.Lambda):
                 return self.eval(node.body, fr)
-            if any(isinstance(n, (ast.Yield, ast.YieldFrom)) for n in ast.walk(node)
-                   if not isinstance(n, (ast.FunctionDef, ast.Lambda)) or n is node):
+            if _is_generator(node):
                 return self.world.make_generator(self, fv, fr)
             try:
                 self.exec_block(node.body, fr)
@@ -585,7 +638,11 @@ class Exec:
         self.eval(st.value, fr)
 
     def st_Return(self, st, fr):
-        raise _Return(self.eval(st.value, fr) if st.value is not None else None)
+        v = self.eval(st.value, fr) if st.value is not None else None
+        if isinstance(v, PayloadView):
+            from . import builtins_impl
+            v = builtins_impl.resolve_payload(self.world, self, v)
+        raise _Return(v)
 
     def st_Break(self, st, fr):
         raise _Break()
@@ -837,6 +894,9 @@ class Exec:
         if isinstance(e.op, ast.Not):
             t = self.truth(v)
             return (not t) if isinstance(t, bool) else z3.Not(t)
+        if isinstance(v, PayloadView):
+            from . import builtins_impl
+            v = builtins_impl.resolve_payload(self.world, self, v)
         if isinstance(e.op, ast.USub):
             if isinstance(v, FloatVal):
                 return v.neg()
@@ -913,7 +973,11 @@ class Exec:
             if isinstance(a, ast.Starred):
                 args.extend(self.world.iterate(self, self.eval(a.value, fr)))
             else:
-                args.append(self.eval(a, fr))
+                v = self.eval(a, fr)
+                if isinstance(v, PayloadView):
+                    from . import builtins_impl
+                    v = builtins_impl.resolve_payload(self.world, self, v)
+                args.append(v)
         kwargs = {}
         for k in e.keywords:
             if k.arg is None:
@@ -1004,6 +1068,26 @@ class Exec:
         v = self.eval(e.value, fr)
         self.assign(e.target, v, fr)
         return v
+
+
+_GEN_CACHE = {}
+
+
+def _is_generator(node):
+    r = _GEN_CACHE.get(id(node))
+    if r is None:
+        r = False
+        stack = list(ast.iter_child_nodes(node))
+        while stack:
+            n = stack.pop()
+            if isinstance(n, (ast.Yield, ast.YieldFrom)):
+                r = True
+                break
+            if isinstance(n, (ast.FunctionDef, ast.Lambda)):
+                continue
+            stack.extend(ast.iter_child_nodes(n))
+        _GEN_CACHE[id(node)] = r
+    return r
 
 
 class _LocalFI:
